@@ -7,8 +7,9 @@ import (
 )
 
 type gen struct {
-	rng  *core.Rand
-	prof Profile
+	rng   *core.Rand
+	prof  Profile
+	admOn bool // the current history has the admin endpoint enabled
 }
 
 func (g *gen) mods(max int) []Mod {
@@ -97,7 +98,7 @@ func (g *gen) cfg(i int) Cfg {
 // inject puts one fault somewhere into (c, e).
 func (g *gen) inject(c *Cfg, e *Env) {
 	for try := 0; try < 8; try++ {
-		switch g.rng.Intn(9) {
+		switch g.rng.Intn(10) {
 		case 0:
 			c.Top = 1 + g.rng.Intn(2)
 			return
@@ -152,6 +153,12 @@ func (g *gen) inject(c *Cfg, e *Env) {
 		case 8:
 			e.Post = true
 			return
+		case 9: // the admin routers cannot be provisioned (needs the endpoint enabled)
+			if !g.admOn {
+				continue
+			}
+			e.Adm = 2
+			return
 		}
 	}
 }
@@ -174,6 +181,7 @@ func (g *gen) history(maxLen int) []Op {
 	if n < 2 && g.rng.Chance(3, 4) {
 		n = 2
 	}
+	g.admOn = g.rng.Chance(1, 4)
 	var ops []Op
 	var last *Cfg
 	for i := 0; i < n; i++ {
@@ -190,6 +198,7 @@ func (g *gen) history(maxLen int) []Op {
 			if g.rng.Chance(1, 2) {
 				g.inject(&c, &e)
 				e.Post = false
+				e.Adm = 0
 			}
 			c.Top = 0
 			ops = append(ops, Op{Kind: 'V', Cfg: c, Env: e})
@@ -233,7 +242,7 @@ func (g *gen) history(maxLen int) []Op {
 					}
 				}
 				ops = append(ops, Op{Kind: 'P', App: one.Apps[0], Env: e})
-				if !renamed && e.Blocked == nil && !e.Post && one.Apps[0].Fault == 0 {
+				if !renamed && e.Blocked == nil && !e.Post && e.Adm != 2 && one.Apps[0].Fault == 0 {
 					nc.Apps[j] = one.Apps[0]
 					last = &nc
 				}
@@ -261,6 +270,9 @@ func (g *gen) history(maxLen int) []Op {
 	for i := range ops {
 		sort.Ints(ops[i].Env.Blocked)
 		ops[i].Env.Blocked = sortDedupInts(ops[i].Env.Blocked)
+		if g.admOn && ops[i].Env.Adm == 0 {
+			ops[i].Env.Adm = 1
+		}
 	}
 	return ops
 }
@@ -281,15 +293,22 @@ func (g *gen) enumerated() [][]Op {
 	var out [][]Op
 	add := func(c Cfg, e Env) {
 		e.Force = true
+		on := 0
+		if e.Adm >= 1 {
+			on = 1
+		}
 		out = append(out, []Op{
-			{Kind: 'L', Cfg: cloneCfg(base), Env: Env{Force: true}},
+			{Kind: 'L', Cfg: cloneCfg(base), Env: Env{Force: true, Adm: on}},
 			{Kind: 'L', Cfg: c, Env: e},
-			{Kind: 'L', Cfg: cloneCfg(base), Env: Env{}},
+			{Kind: 'L', Cfg: cloneCfg(base), Env: Env{Adm: on}},
 			{Kind: 'S'},
 		})
 		out = append(out, []Op{{Kind: 'L', Cfg: cloneCfg(c), Env: e}, {Kind: 'L', Cfg: cloneCfg(c), Env: e}})
 	}
 	add(next(), Env{})
+	add(next(), Env{Adm: 1})
+	add(next(), Env{Adm: 2})
+	add(next(), Env{Adm: 1, Post: true})
 	for t := 1; t <= 3; t++ {
 		c := next()
 		c.Top = t
